@@ -77,6 +77,18 @@ def run_views(case):
     ts = sorted({x for e in ents for x in e[:-1]})
     if list(t.timestamps) != ts:
         raise Violation("timestamps", f"{t.timestamps} != {ts}")
+    # the view follows the tier through in-place edits (query, edit, query again)
+    t2 = mk_tier(spec)
+    for k, sel in enumerate(case.get("deletes", [])):
+        cur = list(t2.entries)
+        if not cur:
+            break
+        t2.timestamps
+        t2.deleteEntry(cur[sel % len(cur)])
+        want = sorted({x for e in t2.entries for x in e[:-1]})
+        if list(t2.timestamps) != want:
+            raise Violation("timestamps-stale", f"after deleteEntry #{k}: timestamps {list(t2.timestamps)} != {want}")
+        cl.append("timestamps_after_delete")
     if spec["type"] == "interval" and ents:
         got = [list(x) for x in t.getNonEntries()]
         want = []
@@ -462,7 +474,8 @@ def run_validate(case):
 
 CHECKS = [
     Check("find", run_find, strategy=lambda tier: find_cases(), quick_n=1000, thorough_n=15000),
-    Check("views", run_views, strategy=lambda tier: st.builds(lambda t: {"tier": t}, st.one_of(gen.interval_tier(), gen.point_tier())),
+    Check("views", run_views, strategy=lambda tier: st.builds(lambda t, d: {"tier": t, "deletes": d}, st.one_of(gen.interval_tier(), gen.point_tier()),
+                                                              st.lists(st.integers(0, 7), max_size=2)),
           quick_n=800, thorough_n=12000, doc="timestamps, getNonEntries"),
     Check("values_in_intervals", run_values_in_intervals, strategy=lambda tier: vii_cases(), quick_n=800, thorough_n=12000),
     Check("values_at_points", run_values_at_points, strategy=lambda tier: vap_cases(), quick_n=1200, thorough_n=20000),
